@@ -100,10 +100,18 @@ def run_case(i, seed, tier):
     cfg = g.cfg(index=i + seed * 17)
     profile = ['grow', 'std', 'churn', 'grow', 'names', 'links'][i % 6]
     nops = g.rng.choice([5, 12, 25, 40]) if tier == 'quick' else g.rng.choice([10, 30, 60, 120])
-    h = common.History(cfg, seed * 1000003 + i, profile, max_size=5000)
-    if i % 5 == 0:
-        h.apply({'op': 'duplicate_pvd'})
-    h.extend(nops)
+    if i % 25 == 9:
+        cfg, sops = common.special_layout(g, common.SPECIALS[(i // 25) % len(common.SPECIALS)])
+        h = common.History(cfg, seed * 1000003 + i, 'std', max_size=5000)
+        for op in sops:
+            h.apply(op)
+        h.extend(g.rng.choice([0, 3]))
+        profile = 'special'
+    else:
+        h = common.History(cfg, seed * 1000003 + i, profile, max_size=5000)
+        if i % 5 == 0:
+            h.apply({'op': 'duplicate_pvd'})
+        h.extend(nops)
     ops = list(h.ops)
     h.sess.close()
     vio, dec = check(cfg, ops, seed * 1000003 + i, counters)
